@@ -1,7 +1,10 @@
-/* Exact mini-model of vasprintf for the formats phosg's byte-escapers use: literals, %%, %c, %s, and hexadecimal
- * conversions %[0][width|*][hh|h|l|ll|z]X / x. Hex digits are produced nibble-wise (no division). Any other conversion
- * (decimal, float) is NOT modelled: reaching one is an assertion failure ("UNMODELLED printf conversion"), never a guess.
- * Include from a harness file. Part of the claim wherever it is used. */
+/* Exact mini-model of the printf family for the formats phosg's byte-escapers and small helpers use: literals, %%, %c, %s,
+ * hexadecimal %[0][width|*][hh|h|l|ll|z]X / x (digits nibble-wise, no division) and decimal %[0][width][l|ll|z]d / u / i for
+ * magnitudes below 10^10 (digits by repeated subtraction, no division; larger values are a reported BOUND failure).
+ * Any other conversion (floating point, %o, %p, precision ...) is NOT modelled: reaching one is an assertion failure
+ * ("UNMODELLED printf conversion"), never a guess. vasprintf is defined in every build mode (it is exact); snprintf and
+ * vsnprintf only for the generated-C modes (the native real build runs libc's). Include from a harness file.
+ * Part of the claim wherever it is used. */
 #ifndef VERIF_STUB_PRINTF_H
 #define VERIF_STUB_PRINTF_H
 #include <stdarg.h>
@@ -10,23 +13,10 @@
 #ifndef VERIF_PRINTF_CAP
 #define VERIF_PRINTF_CAP 24
 #endif
-#ifdef VERIF_NATIVE_REAL
-int vasprintf(char** outp, const char* fmt, va_list va_in) {
-  va_list va;
-  va_copy(va, va_in);
-#else
-uint32_t X_vasprintf(uint8_t* outp_, uint8_t* fmt_, uint8_t* va_) {
-  char** outp = (char**)outp_;
-  const char* fmt = (const char*)fmt_;
-  va_list va;
-  va_copy(va, *(va_list*)va_);
-#endif
-  char* buf = (char*)malloc(VERIF_PRINTF_CAP);
-#ifdef VERIF_CBMC
-  __CPROVER_assume(buf != 0);
-#endif
+/* formats into buf (at most cap-1 characters + NUL, C99 snprintf semantics); returns the would-be length */
+static unsigned verif_fmt_core(char* buf, uint64_t cap, const char* fmt, va_list va) {
   unsigned n = 0;
-#define PUTC(c) do { ASSERT(n + 1 < VERIF_PRINTF_CAP, "printf model capacity (bound)"); buf[n++] = (char)(c); } while (0)
+#define PUTC(c) do { if ((uint64_t)n + 1 < cap) buf[n] = (char)(c); n++; } while (0)
   for (unsigned i = 0; fmt[i]; i++) {
     if (fmt[i] != '%') { PUTC(fmt[i]); continue; }
     i++;
@@ -49,15 +39,67 @@ uint32_t X_vasprintf(uint8_t* outp_, uint8_t* fmt_, uint8_t* va_) {
       for (unsigned k = 1; k < 16; k++) if ((v >> (4 * k)) != 0) nd = k + 1;
       for (unsigned k = nd; k < width; k++) PUTC(zero ? '0' : ' ');
       for (unsigned k = nd; k > 0; k--) { unsigned d = (unsigned)((v >> (4 * (k - 1))) & 0xF); PUTC(d < 10 ? '0' + d : (cv == 'X' ? 'A' : 'a') + (d - 10)); }
+    } else if ((cv == 'd' || cv == 'i' || cv == 'u') && len >= 0) {
+      uint64_t mag; int neg = 0;
+      if (cv == 'u') { mag = (len >= 1) ? va_arg(va, uint64_t) : (uint64_t)va_arg(va, unsigned int); }
+      else { int64_t sv = (len >= 1) ? va_arg(va, int64_t) : (int64_t)va_arg(va, int); neg = sv < 0; mag = neg ? (uint64_t)0 - (uint64_t)sv : (uint64_t)sv; }
+      ASSERT(mag < 10000000000ULL, "BOUND: decimal printf model covers magnitudes below 10^10");
+      ASSUME(mag < 10000000000ULL);
+      static const uint64_t p10[10] = {1000000000ULL, 100000000ULL, 10000000ULL, 1000000ULL, 100000ULL, 10000ULL, 1000ULL, 100ULL, 10ULL, 1ULL};
+      uint8_t dig[10]; unsigned first = 9;
+      for (unsigned k = 0; k < 10; k++) { uint8_t d = 0; for (unsigned j = 0; j < 9; j++) if (mag >= p10[k]) { mag -= p10[k]; d++; } dig[k] = d; }
+      for (unsigned k = 0; k < 9; k++) if (dig[8 - k]) first = 8 - k; /* index of the most significant non-zero digit (9 if none above units) */
+      unsigned nd = 10 - first + (neg ? 1 : 0);
+      if (!zero) for (unsigned k = nd; k < width; k++) PUTC(' ');
+      if (neg) PUTC('-');
+      if (zero) for (unsigned k = nd; k < width; k++) PUTC('0');
+      for (unsigned k = 0; k < 10; k++) if (k >= first) PUTC('0' + dig[k]);
     } else {
       ASSERT(0, "UNMODELLED printf conversion");
       ASSUME(0);
     }
   }
-  buf[n] = 0;
+  if (cap) buf[((uint64_t)n < cap - 1) ? n : cap - 1] = 0;
+  return n;
+#undef PUTC
+}
+
+#ifdef VERIF_NATIVE_REAL
+int vasprintf(char** outp, const char* fmt, va_list va_in) {
+  va_list va;
+  va_copy(va, va_in);
+#else
+uint32_t X_vasprintf(uint8_t* outp_, uint8_t* fmt_, uint8_t* va_) {
+  char** outp = (char**)outp_;
+  const char* fmt = (const char*)fmt_;
+  va_list va;
+  va_copy(va, *(va_list*)va_);
+#endif
+  char* buf = (char*)malloc(VERIF_PRINTF_CAP);
+#ifdef VERIF_CBMC
+  __CPROVER_assume(buf != 0);
+#endif
+  unsigned n = verif_fmt_core(buf, VERIF_PRINTF_CAP, fmt, va);
+  ASSERT(n < VERIF_PRINTF_CAP, "printf model capacity (bound)");
   *outp = buf;
   va_end(va);
   return (int)n;
-#undef PUTC
 }
+
+#ifndef VERIF_NATIVE_REAL
+uint32_t X_snprintf(uint8_t* buf, uint64_t size, uint8_t* fmt, ...) {
+  va_list va;
+  va_start(va, fmt);
+  unsigned n = verif_fmt_core((char*)buf, size, (const char*)fmt, va);
+  va_end(va);
+  return n;
+}
+uint32_t X_vsnprintf(uint8_t* buf, uint64_t size, uint8_t* fmt, uint8_t* va_) {
+  va_list va;
+  va_copy(va, *(va_list*)va_);
+  unsigned n = verif_fmt_core((char*)buf, size, (const char*)fmt, va);
+  va_end(va);
+  return n;
+}
+#endif
 #endif
